@@ -93,6 +93,27 @@ static bool scen_prepare(struct scen* s) {
       return true;
     }
     case 'B': return nb == 1 && body[0] < NBUILDERS;
+    case 'G': { /* a big single leaf (tens of thousands of members): body = op ('L' load / 'C' copy), u16 index into the bigleaf family */
+      if (nb != 3) return false;
+      /* the encoding is the same for every schedule of one scenario: generated once */
+      static struct vh_buf enc;
+      static uint64_t enc_idx = (uint64_t)-1;
+      uint64_t idx = (uint64_t)body[1] << 8 | body[2];
+      if (idx != enc_idx) {
+        rnode* t = gen_bigleaf(idx);
+        if (!t) return false;
+        vb_reset(&enc);
+        ref_encode_src(t, &enc);
+        rn_free(t);
+        enc_idx = idx;
+      }
+      if (body[0] == 'L') { s->input = vh_exact(enc.p, enc.n); s->ninput = enc.n; return true; }
+      struct cbor_load_result r;
+      s->pre[0] = cbor_load(enc.p, enc.n, &r);
+      if (!s->pre[0]) return false;
+      s->npre = 1;
+      return true;
+    }
     case 'P': { /* body: container kind (0 indef array push, 1 indef array set, 2 indef map, 3 chunked bytes, 4 chunked text, 5 def array push (room), 6 def map add (room)), existing members */
       if (nb != 2 || body[0] >= 14) return false;
       /* kinds 7..13: the same seven calls with a fresh argument handed over through cbor_move (count 0 during the call) */
@@ -137,6 +158,16 @@ static struct outcome scen_run(struct scen* s) {
       if (!o.ok && r.error.code == CBOR_ERR_NONE) o.channel_clean = false;
       break;
     }
+    case 'G':
+      if (s->d[1] == 'L') {
+        struct cbor_load_result r;
+        memset(&r, 0x77, sizeof r);
+        o.result = cbor_load(s->input, s->ninput, &r);
+        o.ok = o.result != NULL; o.code = (int)r.error.code; o.pos = r.error.position;
+        if (o.ok != (r.error.code == CBOR_ERR_NONE)) o.channel_clean = false;
+        if (!o.ok && r.error.code != CBOR_ERR_MEMERROR) o.channel_clean = false;
+      } else { o.result = cbor_copy(s->pre[0]); o.ok = o.result != NULL; }
+      break;
     case 'C': case 'Q': o.result = cbor_copy(s->pre[0]); o.ok = o.result != NULL; break;
     case 'S': case 'R': {
       unsigned char* buf = (unsigned char*)(uintptr_t)0x10;
@@ -188,7 +219,8 @@ static struct outcome scen_run(struct scen* s) {
 }
 
 static void dump_pre(struct scen* s, struct vh_buf* out) {
-  for (int i = 0; i < s->npre; i++) walk_dump_item(s->pre[i], out, WD_REFCOUNTS | WD_IDENTITY);
+  /* identity numbering is quadratic in the number of nodes: the hundred-thousand-node scenarios compare contents and counts only */
+  for (int i = 0; i < s->npre; i++) walk_dump_item(s->pre[i], out, s->d[0] == 'G' ? WD_REFCOUNTS : (WD_REFCOUNTS | WD_IDENTITY));
 }
 
 static uint64_t g_runs, g_refusal_runs, g_scen, g_maxN, g_head_attributed;
@@ -218,6 +250,7 @@ static void describe_scen(const uint8_t* d, size_t n, char* out, size_t cap) {
     case 'Q': snprintf(out, cap, "cbor_copy(api-built tree %s)", vh_hex(d + 1, n - 1, 16)); break;
     case 'R': snprintf(out, cap, "cbor_serialize_alloc(api-built tree %s)", vh_hex(d + 1, n - 1, 16)); break;
     case 'B': snprintf(out, cap, "cbor_%s", builder_names[d[1] < NBUILDERS ? d[1] : 0]); break;
+    case 'G': snprintf(out, cap, "%s of big leaf #%u (tens of thousands of members)", d[1] == 'L' ? "cbor_load" : "cbor_copy", (unsigned)(d[2] << 8 | d[3])); break;
     case 'P': { static const char* pk[] = {"cbor_array_push on an indefinite array", "cbor_array_set(size) on an indefinite array", "cbor_map_add on an indefinite map", "cbor_bytestring_add_chunk", "cbor_string_add_chunk", "cbor_array_push on a definite array with room", "cbor_map_add on a definite map with room"};
       snprintf(out, cap, "%s holding %d member(s)%s", pk[d[1] % 7], d[2], d[1] >= 7 ? ", the new member handed over through cbor_move" : ""); break; }
     case 'T': snprintf(out, cap, "cbor_build_tag"); break;
@@ -339,6 +372,40 @@ static void scenario(const uint8_t* sd, size_t sn) {
   vb_free(&d);
 }
 
+/* Scenarios with tens of thousands of requests: the interesting requests are the few growth steps (realloc calls), whose
+ * indices the fault-free run records; they are all refused in turn, next to the first, the last and a spread of the rest. */
+static void scenario_big(const uint8_t* sd, size_t sn) {
+  struct outcome base;
+  struct vh_buf d = {0};
+  vb_put(&d, sd, sn); vb_be(&d, 0xffffffffu, 4); vb_u8(&d, 0);
+  if (!vh_case(d.p, d.n)) { /* resuming */ }
+  size_t cap0 = (size_t)1 << 20;
+  ta_set_cap((size_t)64 << 20);
+  int64_t N = fault_run(sd, sn, -1, 0, &base);
+  if (N < 0 || !base.ok) { VH_COUNT("scenarios.not_applicable", 1); ta_set_cap(cap0); vb_free(&d); return; }
+  g_scen++;
+  if ((uint64_t)N > g_maxN) g_maxN = (uint64_t)N;
+  VH_COUNT("scenarios.G", 1);
+  uint64_t ks[TA_MAX_REALLOC_IDX + 64];
+  size_t nk = 0;
+  for (size_t i = 0; i < ta_nrealloc_idx && i < 600; i++) ks[nk++] = ta_realloc_idx[i];
+  VH_MAX("max_growth_steps_refused_in_one_big_scenario", nk);
+  for (int64_t k = 0; k < 2 && k < N; k++) ks[nk++] = (uint64_t)k;
+  for (int64_t k = N > 2 ? N - 2 : 0; k < N; k++) ks[nk++] = (uint64_t)k;
+  for (int i = 1; i < 4; i++) ks[nk++] = (uint64_t)(N * i / 4);
+  for (int mode = 0; mode < 2; mode++)
+    for (size_t i = 0; i < nk; i++) {
+      if (ks[i] >= (uint64_t)N) continue;
+      d.n = sn;
+      vb_be(&d, ks[i], 4); vb_u8(&d, (uint8_t)mode);
+      if (!vh_case(d.p, d.n)) continue;
+      fault_run(sd, sn, (int)ks[i], mode, &base);
+      vh_nontrivial(vh_hash(d.p, d.n));
+    }
+  ta_set_cap(cap0);
+  vb_free(&d);
+}
+
 static void scen_input(char kind, const uint8_t* in, size_t n) {
   struct vh_buf s = {0};
   vb_u8(&s, (uint8_t)kind); vb_put(&s, in, n);
@@ -417,6 +484,24 @@ static void fault_run_all(void) {
       scen_input('L', x.p, x.n);
     }
     vb_free(&x);
+  } else if (!strcmp(st, "big")) {
+    /* containers and chunked strings of 65535 / 65536 / 100000 members: cbor_load and cbor_copy with every growth step refused */
+    uint64_t nb = gen_bigleaf_count();
+    for (uint64_t u = 0; u < nb; u++) {
+      rnode* t = gen_bigleaf(u);
+      if (!t) continue;
+      size_t nodes = rn_count(t);
+      bool container = t->kind == R_ARRAY || t->kind == R_MAP || t->indef;
+      if (t->kind == R_ARRAY && t->nkids == 1 && !t->indef) { const rnode* k0 = t->kids[0]; container = k0->kind == R_ARRAY || k0->kind == R_MAP || k0->indef; }
+      rn_free(t);
+      if (!container || nodes < 60000 || nodes > 250000) continue;
+      if (!O.thorough && !(nodes > 90000 && nodes < 210000 && (u & 1) == 0)) continue; /* quick: the bare 100000-member ones */
+      if (!MINE()) continue;
+      uint8_t s1[4] = {'G', 'L', (uint8_t)(u >> 8), (uint8_t)u};
+      scenario_big(s1, 4);
+      s1[1] = 'C';
+      scenario_big(s1, 4);
+    }
   } else if (!strcmp(st, "corpus")) {
     uint64_t nsys = gen_systematic_count();
     uint64_t nrand = O.budget ? O.budget : (O.thorough ? 40000 : 2000);
@@ -455,9 +540,11 @@ static void fault_run_all(void) {
 static void fault_exec(const uint8_t* d, size_t n) {
   fault_setup();
   if (n < 4) { printf("bad C06 descriptor\n"); return; }
-  size_t sn = n - 3;
-  int k = (int)d[sn] << 8 | d[sn + 1];
-  int mode = d[sn + 2];
+  bool big = d[0] == 'G';
+  size_t sn = n - (big ? 5 : 3);
+  int k = big ? (int)((uint32_t)d[sn] << 24 | (uint32_t)d[sn + 1] << 16 | (uint32_t)d[sn + 2] << 8 | d[sn + 3]) : ((int)d[sn] << 8 | d[sn + 1]);
+  int mode = d[sn + (big ? 4 : 2)];
+  if (big) { ta_set_cap((size_t)64 << 20); if (k == -1) k = 0xffff; }
   struct outcome base;
   int64_t N = fault_run(d, sn, -1, 0, &base);
   char what[200];
